@@ -525,6 +525,9 @@ func evalForFd(fm *Frame, op valuesOp, closeOK bool, what string) (int, error) {
 	}
 	var fd int
 	if vals.ScanToGo(value, &fd) == nil {
+		if fd < 0 {
+			return -1, fm.errorp(op, InvalidFD{FD: fd})
+		}
 		return fd, nil
 	} else if value == "-" && closeOK {
 		return -1, nil
